@@ -48,7 +48,13 @@ def gen(rng, strategy, signal_case=False):
     cs_p = rng.choice([P, P, P / 2, 2 * P])
     fixed = rng.random() < 0.5 or (directed and strategy != "peak_load_window")
     fl_vals = [round(rng.uniform(0, 30), 2) for _ in range(n + 2)] if fixed else []
-    if fixed and (rng.random() < 0.4 or directed):
+    if fixed and tight and not directed and rng.random() < 0.4:
+        # a block of high building load in the middle (little head room there), low before and after
+        a_ = rng.randrange(1, max(2, n // 2))
+        b2_ = min(n, a_ + rng.randrange(2, max(3, n // 3)))
+        hi_ = round(rng.uniform(12, 30), 2)
+        fl_vals = [hi_ if a_ <= i < b2_ else 2.0 for i in range(n + 2)]
+    elif fixed and (rng.random() < 0.4 or directed):
         k = rng.randrange(1, n)
         fl_vals = [5.0] * k + [round(rng.uniform(20, 40), 2)] * (n + 2 - k)       # load rising later
     gc_max = nveh * cs_p + (max(fl_vals) if fixed else 0) + rng.choice([1, 10, 100])
